@@ -793,7 +793,7 @@ theorem resolveNames_eq_ls (strtab : SecBuf) (T : Bytes)
   induction l with
   | nil => rfl
   | cons b rest ih =>
-    simp only [resolveNames, h, ih, List.map_cons, withName_ls]
+    simp only [LoadTie.resolveNames_cons, h, ih, List.map_cons, withName_ls]
     rfl
 
 /-! ### segments inside the file -/
@@ -1068,7 +1068,8 @@ theorem load_eq_ls (o : Obj) (st : IStream) (isLazy : Bool) :
         let hdr := wr (Hdr.create c enc (idb EI_DATA)) 0 r2.2
         let o2 := { o1 with cls := c, enc := enc, hdr := some hdr }
         if r2.1.gcount != ehdrSize c then loadFail o2 r2.1 else loadBody o2 c enc hdr r2.1 isLazy := by
-  unfold load loadBody loadNames loadSections loadSegs loadFail
+  rw [LoadTie.load_hand]
+  unfold LoadTie.loadHand loadBody loadNames loadSections loadSegs loadFail
   simp only []
   split
   · rfl
